@@ -153,6 +153,24 @@ func init() {
 		p.atomicBudget = p.concreteInt(a[1], "OnAtomic budget")
 		return nil
 	}
+	boolN := func(f func(ts ...*Term) *Term) intrinsicFn {
+		return func(p *Path, a []Value, _ *ssa.CallCommon) Value {
+			ts := make([]*Term, len(a))
+			for i := range a {
+				ts[i] = termOf(a[i])
+			}
+			return f(ts...)
+		}
+	}
+	I[vzPkg+".And"] = boolN(mkAnd)
+	I[vzPkg+".Or"] = boolN(mkOr)
+	I[vzPkg+".Not"] = boolN(func(ts ...*Term) *Term { return mkNot(ts[0]) })
+	I[vzPkg+".Implies"] = boolN(func(ts ...*Term) *Term { return mkImplies(ts[0], ts[1]) })
+	I[vzPkg+".Iff"] = boolN(func(ts ...*Term) *Term { return mkEq(ts[0], ts[1]) })
+	I[vzPkg+".Ite"] = boolN(func(ts ...*Term) *Term { return mkIte(ts[0], ts[1], ts[2]) })
+	I[vzPkg+".IteTime"] = func(p *Path, a []Value, _ *ssa.CallCommon) Value {
+		return mergeValuesOrFork(p, termOf(a[0]), a[1], a[2])
+	}
 	I[vzPkg+".Thorough"] = func(p *Path, a []Value, _ *ssa.CallCommon) Value { return mkBool(p.eng.thorough) }
 	I[vzPkg+".Symbolic"] = func(p *Path, a []Value, _ *ssa.CallCommon) Value { return tTrue }
 	I[vzPkg+".Unreachable"] = func(p *Path, a []Value, _ *ssa.CallCommon) Value {
@@ -1363,4 +1381,21 @@ func (p *Path) deepEqual(a, b Value, depth int) *Term {
 		return p.valuesEqual(a, b)
 	}
 	panic(unsupported(fmt.Sprintf("deepEqual of %T and %T", a, b)))
+}
+
+func mergeValuesOrFork(p *Path, c *Term, a, b Value) (r Value) {
+	defer func() {
+		if e := recover(); e != nil {
+			if _, ok := e.(specAbort); ok {
+				if p.branch(c) {
+					r = a
+				} else {
+					r = b
+				}
+				return
+			}
+			panic(e)
+		}
+	}()
+	return mergeValues(c, a, b)
 }
